@@ -525,7 +525,7 @@ for _p in ARENA:
 # ----------------------------------------------------------------------------------------
 COLLS = {
     'C06': dict(x=['accounted', 'lost', 'unknown element', 'stale slot', 'drops do not match', 'was dropped while moving'],
-                note='PARTIAL: conservation proved for the modelled algorithms; into_iter / splice / map(_in_place, also panicking) / append / extend with lying size hints / resize_with / dedup_by_key / into_boxed_slice are covered by the drop-count monitor and std Vec in lock-step only (extras probe)'),
+                note='PARTIAL: conservation proved for the modelled algorithms (now including into_iter, splice, map_in_place with a panicking closure, append); map / extend with lying size hints / resize_with / dedup_by_key / into_boxed_slice / partition are covered by the drop-count monitor and std Vec in lock-step only (extras probe)'),
     'C08': dict(x=['std::vec::Vec', 'contents differ', 'returned values differ', 'capacity:', 'capacity ', 'overwrote a neighbouring allocation', 'yielded', 'len() of the iterator', 'accounted', 'lost'],
                 note='PARTIAL: list-function refinement proved for the modelled operations; capacity clauses and unmodelled operations are checked against std::vec::Vec in lock-step only'),
     'C16': dict(x=['split_off capacities', 'split_off part', 'changed the remaining part', 'changed the split-off part', 'parts:'],
